@@ -12,13 +12,16 @@ CLAIMED = {
     "C04": ("SMT (z3 nonlinear real arithmetic) over symbolic execution of the real eigenbasis_of enter/exit protocol, "
             "lazy transformation properties and per-class transform() along bounded context programs; eigh as a "
             "contract stub (spectral parametrisation, determinism, degeneracy case split); prove-then-replace "
-            "checkpoint simplification at context boundaries", "4/C04", ""),
+            "checkpoint simplification at context boundaries", "4/C04",
+            "Polynomial identities that follow from the rotation constraints are discharged by the normal-form prover "
+            "(z3 rewriter + reduction modulo the assumed square rules), the rest by the SMT portfolio."),
     "C05": ("SMT (z3 real arithmetic) over symbolic execution of the unit-conversion functions and every "
             "units-managed accessor for all ordered unit pairs; bounded programs of nested contexts / library "
             "calls executed on the real Manager", "4/C05", ""),
     "C06": ("SMT (z3; exp/tanh and the bath's Fourier-transformed correlation function as uninterpreted functions with "
             "instantiated relations) over symbolic execution of the Redfield/Foerster rate-matrix code and the "
-            "spectral-density / (1+coth)J code, all branches of the frequency cut-off explored", "4/C06",
+            "spectral-density / (1+coth)J code, all branches of the frequency cut-off explored; Foerster rates "
+            "against the donor-shifted overlap form with the spline quadrature as a congruent stub", "4/C06",
             "Clauses about numerical agreement with the golden-rule value / integration accuracy are not decided."),
     "C07": ("SMT (z3 nonlinear real arithmetic) over symbolic execution of apply / convert_2_tensor / transform / "
             "_OTI / _TTI / the time-dependent and time-independent Redfield implementations (spline integral as an "
@@ -31,7 +34,9 @@ CLAIMED = {
             "The clause 'refining the internal step changes U only within the truncation bound' is numerical and "
             "not decided."),
     "C09": ("SMT (z3; exp/tan uninterpreted) over symbolic execution of the real CorrelationFunction constructor and "
-            "addition code for every grouping of mixed analytic/value-defined components", "4/C09",
+            "addition code for every grouping of mixed analytic/value-defined components, SpectralDensity addition "
+            "inside units contexts, and the even/odd Fourier parts against cosine/sine sums with exact roots of "
+            "unity", "4/C09",
             "FFT-based component types and the measured-vs-declared reorganisation energy are outside the claim."),
     "C10": ("SMT (z3 real arithmetic) over symbolic execution of the real vibronic Aggregate.build / fc_factor / "
             "coupling / transition_dipole code with the Franck-Condon overlap matrix as an uninterpreted matrix per "
@@ -40,22 +45,24 @@ CLAIMED = {
             "are not decided."),
     "C11": ("SMT (z3 real arithmetic with exact roots of unity; hfft by its defining sum) over symbolic execution of "
             "the real absorption calculator: spectrum vs direct Fourier sum on the returned axis, purity of the "
-            "in-place diagonalise/back-transform, dipole sum rule and quadratic scaling", "4/C11",
+            "in-place diagonalise/back-transform, per-transition dipole strength / frequency / exciton bath function, "
+            "dipole sum rule, quadratic scaling, rotation and relabelling invariance", "4/C11",
             "One open known finding (C11-hfft-axis-displacement). Line positions for physical line shapes and the "
             "dynamics route are not decided."),
     "C12": ("SMT (z3 polynomial real arithmetic) over symbolic execution of the real LabSetup / liouville_pathway "
             "orientational-averaging code: the three full contractions that fix an isotropic rank-4 average, the "
             "bilinear form, rotation invariance (plane rotations) and fourth-power scaling", "4/C12",
-            "Also pathway level: for uncoupled molecules the summed prefactors cancel at every cross-peak position and "
-            "equal the monomers' at the diagonal ones (real liouville_pathways_3T, symbolic dipoles). Line shapes, "
-            "waiting-time evolution and total = R + NR in the calculator (storage additivity is C19) are not decided."),
+            "Also pathway level: for uncoupled molecules (any energy order, different line widths, zero and non-zero "
+            "waiting time with unitary evolution) the summed prefactors cancel at every cross-peak position and "
+            "equal the monomers' at the diagonal ones (real liouville_pathways_3T, symbolic dipoles); calculator total "
+            "= rephasing + non-rephasing. Line-shape values and relaxation during the waiting time are not decided."),
     "C13": ("SMT (z3 nonlinear real arithmetic with exact algebraic roots of unity) over symbolic execution of the "
             "real axis-conjugation and DFunction Fourier-transform code", "4/C13", ""),
     "C14": ("SMT (z3; IEEE exp under/overflow as axioms on an uninterpreted Exp; division-by-zero side "
             "obligations) over symbolic execution of the thermal/impulsive state builders and the real "
             "basis-context machinery with an eigh contract stub", "4/C14", ""),
     "C15": ("SMT (z3 real arithmetic) over symbolic execution of repeated calls on shared propagator / hierarchy / "
-            "tensor objects: term-wise equality of results and of input snapshots", "4/C15",
+            "tensor objects (also with pure dephasing): term-wise equality of results and of input snapshots", "4/C15",
             "One open known finding (C15-refinement-sticks)."),
     "C16": ("Table-SMT (z3 integer queries over the index/link tables the real code builds) + SMT over symbolic "
             "execution of the HEOM right-hand sides and propagate()", "4/C16", ""),
@@ -64,9 +71,11 @@ CLAIMED = {
             "4/C17", ""),
     "C18": ("SMT (z3 real arithmetic) over symbolic execution of the real Saveable/Parcel save-load code and the "
             "units/basis-managed accessors along bounded programs of save/load inside units and basis contexts; "
-            "dill stubbed by an in-memory deep copy (validated by the concrete replay with the real dill)", "4/C18",
-            "One open known finding (C18-saved-inside-basis-context). The export/import file formats "
-            "(text, npy, npz, mat: C-level I/O) are not decided."),
+            "dill stubbed by an in-memory deep copy (validated by the concrete replay with the real dill); "
+            "save_data/load_data for every format with the array file I/O replaced by stubs carrying the formats' "
+            "shape contracts (validated by the replay with real files); savedir/loaddir histories", "4/C18",
+            "Open known findings: C18-saved-inside-basis-context (two histories), C18-mat-one-dimensional. Byte-level "
+            "file contents are not decided."),
     "C19": ("SMT (z3 linear real arithmetic validity per view) over symbolic execution of the real TwoDResponse "
             "storage code along every bounded operation history, with a ghost ledger as oracle", "4/C19",
             "One open known finding (C19-types-into-pathways) is reported as KNOWN-FINDING."),
